@@ -33,7 +33,7 @@ def angle_expr(rng, tier):
 def c09_cases(rng, tier):
     cs = []
     names = list(C09_STEMS.items()) + list(C09_CTRL.items())
-    reps = 3 if tier == "quick" else 12
+    reps = 3 if tier == "quick" else 40
     for name, (npar, nq) in names:
         for rep in range(reps):
             for upper in (False, True):
@@ -104,7 +104,7 @@ def c11_cases(rng, tier):
           ("apply", "cx", [("q", "q", 0), ("q", "q", 1)], []), ("reset", ("q", "q", 0)), ("measure", ("q", "q", 1), ("q", "c", 0))]
     for w in (w1, w2, w3):
         cs.append({"chunks": [w], "seed": 7})
-    for _ in range(150 if tier == "quick" else 2000):
+    for _ in range(150 if tier == "quick" else 6000):
         nodes, lay = qa.gen_program(rng, nstmts=rng.randint(6, 30), max_q=5, measure_p=0.2, if_p=0.2, reset_p=0.12,
                                     gate_defs=1, depth=2)
         cs.append({"chunks": [nodes], "seed": rng.randrange(1 << 30), "xor": rng.random() < 0.4})
@@ -278,7 +278,7 @@ def c13_cases(rng, tier):
     # recorded finding K2: a gate body is validated lazily
     cs.append({"chunks": [[("qreg", "q", 1), ("gate", "g", ["x"], [], [("apply", "foo", [("r", "x")], [])])]], "seed": 1,
                "expect": ("UnknownGate", "foo"), "rule": "unknown gate inside a never-called gate body", "sig": "lazy-gate-body-unknown-gate"})
-    for _ in range(12 if tier == "quick" else 150):
+    for _ in range(12 if tier == "quick" else 600):
         nodes, lay = qa.gen_program(rng, nstmts=rng.randint(3, 12), max_q=5, measure_p=0.15, if_p=0.1, reset_p=0.05,
                                     gate_defs=2, depth=2)
         cs.append({"chunks": [nodes], "seed": 1, "expect": None, "rule": "well-formed"})
@@ -348,7 +348,7 @@ def c17_cases(rng, tier):
         whole = [n for ch in chunks for n in ch]
         for api in ("changes", "prepend", "add"):
             cs.append({"chunks": chunks, "api": api, "seed": 9, "whole": whole})
-    for _ in range(60 if tier == "quick" else 800):
+    for _ in range(60 if tier == "quick" else 3000):
         nodes, lay = qa.gen_program(rng, nstmts=rng.randint(4, 25), max_q=5, measure_p=0.15, if_p=0.15, reset_p=0.08,
                                     gate_defs=2, depth=2, late_p=0.15)
         seed = rng.randrange(1 << 30)
@@ -395,7 +395,7 @@ def c17_run(run, binary, cases, tag):
 
 def c17_rerun(run, binary, rng, tier):
     n = 0
-    for _ in range(20 if tier == "quick" else 200):
+    for _ in range(20 if tier == "quick" else 800):
         nodes, lay = qa.gen_program(rng, nstmts=rng.randint(4, 15), max_q=4, measure_p=0.2, if_p=0.15, reset_p=0.1, gate_defs=1, depth=2)
         other, _ = qa.gen_program(rng, nstmts=4, max_q=3, measure_p=0.1, gate_defs=0, depth=1)
         seed = rng.randrange(1 << 30)
@@ -424,7 +424,7 @@ def c18_cases(rng, tier):
            ("apply", "y", [("q", "zz", 0)], [])]
     cont = [("apply", "cx", [("q", "q", 0), ("q", "q", 1)], []), ("measure", ("r", "q"), ("r", "c"))]
     sessions.append({"chunks": [good0, bad, cont], "bad": [1], "seed": 5})
-    for _ in range(25 if tier == "quick" else 300):
+    for _ in range(25 if tier == "quick" else 1200):
         nodes, lay = qa.gen_program(rng, nstmts=rng.randint(6, 16), max_q=5, measure_p=0.15, if_p=0.15, reset_p=0.05, gate_defs=2, depth=2)
         k = len(lay_decl_end(nodes))
         body = nodes[k:]
@@ -535,7 +535,7 @@ def c12_strings(rng, tier):
     """(text, signature or None)"""
     out = []
     base_progs = []
-    for _ in range(30 if tier == "quick" else 300):
+    for _ in range(30 if tier == "quick" else 1200):
         nodes, lay = qa.gen_program(rng, nstmts=rng.randint(3, 14), max_q=5, measure_p=0.2, if_p=0.15, reset_p=0.1, gate_defs=2, depth=2)
         base_progs.append(qa.p_program(nodes, rng, header=rng.random() < 0.5))
     out += [(t, None) for t in base_progs]
@@ -570,7 +570,7 @@ def c12_strings(rng, tier):
     # token- and byte-level mutations
     toks = [";", ",", "(", ")", "[", "]", "{", "}", "->", "==", "+", "-", "*", "/", "^", "q", "c", "pi", "0", "1", "64", "99999999999", "1.5",
             "qreg", "creg", "gate", "if", "measure", "reset", "barrier", "opaque", "include", "OPENQASM", "é", "c", "cc", "U", "CX", "//", "\n"]
-    nmut = 400 if tier == "quick" else 20000
+    nmut = 400 if tier == "quick" else 60000
     for _ in range(nmut):
         t = rng.choice(base_progs)
         r = rng.random()
